@@ -12,6 +12,14 @@ def check(run, tier):
                 "transition executed on the real engine from the matching real state; leg C: seeded random histories; "
                 "all real steps validated by TraceEngine.tla. distinct = distinct (operation, object type, state before, "
                 "status, reason) tuples observed on the real engine.")
+    # unbounded: tlaps/LifecycleProof.tla proves Lifecycle!Safety (over a history of any length an object is never again in a
+    # state it has left); MC_C04 ASSUMEs (TLC evaluates it) that Lifecycle's step relation is the relation of clause C04_moves
+    from .. import tlc
+    nob = tlc.tlaps("LifecycleProof", deps=("Lifecycle",))
+    run.extra["tlaps_proof"] = {"module": "spec/tlaps/LifecycleProof.tla", "theorem": "Lifecycle!Safety == Spec => []NeverReturns",
+                                "obligations_proved": nob}
+    run.extra["obligations"] = nob
+    run.extra["discharged"] = nob
     # leg A
     E.model_check(run, "MC_C04", "MenuC04", CHECKED, 4 if quick else 5, 2)
     # leg B
